@@ -7,7 +7,13 @@ TIERS = ("quick", "thorough")
 
 
 def size(tier, quick, thorough):
-    return quick if tier == "quick" else thorough
+    """thorough sizes are capped at THOROUGH_CAP x quick so that a thorough run stays within tens of minutes;
+    complete enumerations (string-valued sizes) are not capped"""
+    if tier == "quick":
+        return quick
+    if isinstance(quick, int) and isinstance(thorough, int) and quick > 0:
+        return min(thorough, core.THOROUGH_CAP * quick)
+    return thorough
 
 
 # ---------------------------------------------------------------------------
@@ -74,7 +80,7 @@ def sem_leg(o, name, gen_args, n, seed, shards=None, spec="TV_Sem.tla", cfg="TV_
             sens=12, gen_cmd="gen-sem", timeout=1500, extra_env=None):
     """Generate n records with `nlh <gen_cmd> ...`, validate them against NlSem."""
     t0 = time.time()
-    shards = shards or max(1, min(core.NCPU, n // 150))
+    shards = shards or max(1, min(core.nshards(), n // 150))
     wd = core.workdir(f"{o.prop}_{name}")
     per = (n + shards - 1) // shards
 
@@ -213,7 +219,7 @@ def corrupt_bc(rec, k):
 
 def bc_leg(o, name, n, seed, residue_is_violation=False, timeout=1500):
     t0 = time.time()
-    shards = max(1, min(core.NCPU, n // 400))
+    shards = max(1, min(core.nshards(), n // 400))
     wd = core.workdir(f"{o.prop}_{name}")
     optab = optab_file(wd)
     per = (n + shards - 1) // shards
@@ -312,13 +318,13 @@ def check_C02(tier, seed):
 # ---------------------------------------------------------------------------
 def rel_leg(o, name, xset, n, seed, timeout=1500):
     t0 = time.time()
-    shards = max(1, min(core.NCPU, n // 100))
+    shards = max(1, min(core.nshards(), n // 100))
     wd = core.workdir(f"{o.prop}_{name}")
     per = (n + shards - 1) // shards
 
     def gen(i):
         f = os.path.join(wd, f"rel{i}.ndjson")
-        core.run_nlh(["gen-rel", "--set", xset, "--seed", seed * 1021 + i, "--n", per,
+        core.run_nlh(["gen-rel", "--set", xset, "--seed", seed * 1021 + i, "--n", per, "--shard", i, "--shards", shards,
                       "--first-id", i * 1000000 + 1, "--out", f])
         return f
     files = core.parallel(gen, list(range(shards)))
@@ -427,7 +433,10 @@ def check_C10(tier, seed):
     ]
     n = size(tier, 2400, 60000)
     rel_leg(o, "laws", "impl", n, seed)
-    o.extra["rule"] = "closed generated programs paired with their images under the four implementation-choice transformations"
+    rel_leg(o, "fused-shapes-every-type", "fused-directed", 1600, seed)
+    o.extra["rule"] = ("closed generated programs paired with their images under the four implementation-choice transformations; "
+                       "complete enumeration of the shape the compiler fuses (local op integer literal, both orientations, 11 operators) "
+                       "applied to values of every type, against the same computation through a temporary")
     return o.finish()
 
 
@@ -588,7 +597,7 @@ def gen_files(wd, cmd, args, shards, prefix):
 
 def sem_and_frames(o, name, gen_args, n, seed, steps=4000, gen_cmd="gen-sem"):
     """records with dispatch events: validated against NlSem (values) and NlFrames (discipline)"""
-    shards = max(1, min(core.NCPU, n // 100))
+    shards = max(1, min(core.nshards(), n // 100))
     wd = core.workdir(f"{o.prop}_{name}")
     per = (n + shards - 1) // shards
 
@@ -741,7 +750,7 @@ def gc_replay_leg(o, classes, tier, seed):
     o.add_tlc(r)
     if not vecs:
         raise ToolError("NlGCVec produced no vectors")
-    shards = min(core.NCPU, max(1, len(vecs) // 100))
+    shards = min(core.nshards(), max(1, len(vecs) // 100))
     files = []
     for k in range(shards):
         vf_ = os.path.join(wd, f"vec{k}.ndjson")
@@ -801,7 +810,7 @@ def gc_replay_leg(o, classes, tier, seed):
 def ledger_leg(o, name, classes, mode, n, seed, max_k=120):
     """M3: heap-ledger traces of whole evaluations validated against NlHeapLedger"""
     t0 = time.time()
-    shards = max(1, min(core.NCPU, n // (4 if mode == "aborts" else 40)))
+    shards = max(1, min(core.nshards(), n // (4 if mode == "aborts" else 40)))
     wd = core.workdir(f"{o.prop}_{name}")
     per = (n + shards - 1) // shards
 
@@ -854,10 +863,13 @@ def ledger_leg(o, name, classes, mode, n, seed, max_k=120):
         ids = [e["id"] for e in c["heap"] if e["e"] == "Alloc"]
         if not ids:
             continue
+        # injected right after the first allocation: the specification keeps at most MaxViol violations per
+        # record, and a session on the pinned tree can fill that with its known findings before the end
+        at = next(j for j, e in enumerate(c["heap"]) if e["e"] == "Alloc") + 1
         if k % 3 == 0:
-            c["heap"].append({"e": "DeadDeref", "id": ids[0]}); c["_expect"] = "dead-deref"
+            c["heap"].insert(at, {"e": "DeadDeref", "id": ids[0]}); c["_expect"] = "dead-deref"
         elif k % 3 == 1:
-            c["heap"].append({"e": "Free", "id": ids[0], "dup": True}); c["_expect"] = "double-free"
+            c["heap"].insert(at, {"e": "Free", "id": ids[0], "dup": True}); c["_expect"] = "double-free"
         else:
             c["heap"] = [{"e": "Alloc", "id": 1}, {"e": "Trace", "gc": 1, "id": 1},
                          {"e": "Snapshot", "roots": [1], "edges": []},
@@ -1065,7 +1077,7 @@ def parseany_leg(o, name, n, seed):
     """the real parser against NlParser on arbitrary texts (TV_ParseAny)"""
     t0 = time.time()
     wd = core.workdir(f"{o.prop}_{name}")
-    shards = core.NCPU
+    shards = core.nshards()
 
     def gen(i):
         f = os.path.join(wd, f"pa{i}.ndjson")
@@ -1136,7 +1148,7 @@ def check_C07(tier, seed):
         o.add_tlc(r)
         rng = random.Random(seed)
         vecs += rng.sample(r.vecs, min(1500, len(r.vecs)))
-    shards = core.NCPU
+    shards = core.nshards()
     files = []
     for k in range(shards):
         f = os.path.join(wd, f"vec{k}.ndjson")
@@ -1190,7 +1202,7 @@ def check_C08(tier, seed):
         "token kinds and spellings are read from the Debug rendering of the token stream (hook verif::tokens); decoded strings from the tree of the public parse",
     ]
     wd = core.workdir("C08_lex")
-    shards = core.NCPU
+    shards = core.nshards()
 
     def gen(i):
         f = os.path.join(wd, f"lex{i}.ndjson")
@@ -1304,7 +1316,7 @@ def check_C05(tier, seed):
         "eval takes a &str: truncations are taken at character boundaries; invalid UTF-8 reaches only the binary's file mode",
     ]
     wd = core.workdir("C05_eval")
-    shards = core.NCPU
+    shards = core.nshards()
     n = size(tier, 6000, 400000)
 
     def gen(i):
@@ -1524,7 +1536,7 @@ def check_C17(tier, seed):
     # random sessions of up to 12 lines with failing lines of every class
     wd2 = core.workdir("C17_random")
     n = size(tier, 640, 16000)
-    shards = core.NCPU
+    shards = core.nshards()
 
     def gen(i):
         f = os.path.join(wd2, f"s{i}.ndjson")
@@ -1624,7 +1636,7 @@ def corrupt_big(rec, k):
 
 def big_leg(o, name, lattice, nrandom, seed, timeout=2400):
     t0 = time.time()
-    shards = core.NCPU
+    shards = core.nshards()
     wd = core.workdir(f"{o.prop}_{name}")
 
     def gen(i):
@@ -1683,7 +1695,7 @@ def big_leg(o, name, lattice, nrandom, seed, timeout=2400):
 def float_leg(o, name, extra, seed):
     t0 = time.time()
     wd = core.workdir(f"{o.prop}_{name}")
-    shards = core.NCPU
+    shards = core.nshards()
     files = gen_files(wd, "gen-float", ["--seed", seed, "--extra", extra], shards, "fl")
     results = run_tv_shards(files, "TV_Float.tla", "TV_Float.cfg", wd)
     counts = {}
@@ -1770,6 +1782,7 @@ CHECKS = {
 
 
 def run_check(prop, tier, seed):
+    core.TIER = tier
     if prop not in CHECKS:
         print("unknown property", prop)
         return 2
